@@ -2,7 +2,7 @@
 from fractions import Fraction
 
 import compat  # noqa: F401
-from props.c03 import (SchedProp, gen_backtrack_case, gen_random_sched, gen_rows, gen_template, mk_checks, mk_sched,
+from props.c03 import (SchedProp, gen_backtrack_case, gen_checks, gen_random_sched, gen_rows, gen_template, mk_checks, mk_sched,
                        mk_tmpl, of_sched)
 
 ENTRIES_BELOW = 1000   # clause of the correspondence claim for the floating-point matcher (finding D27)
@@ -245,6 +245,79 @@ def gen_check_case(rng):
     return {"kind": "ocs", "t": t, "s": s, "ch": rng.choice([0, 1, 1, 2, 3])}
 
 
+def sched_case(t, s, checks, idx=None, default_checks=False):
+    return {"kind": "scheduler", "t": t, "s": s, "checks": [["pos"]] if default_checks else checks, "idx": idx,
+            "default_checks": default_checks}
+
+
+def _ident_ops(rows, b=None):
+    return {"A": rows, "b": [0] * len(rows) if b is None else b}
+
+
+def gen_scheduler_case(rng, tier):
+    """scheduler(template, schedule[, extra_checks][, schedule_idx]) on feasible and infeasible workloads."""
+    u = rng.random()
+    idx = None if rng.random() < 0.8 else rng.randint(0, 3)
+    default = rng.random() < 0.25
+    if u < 0.55:
+        while True:
+            c = gen_backtrack_case(rng, tier)
+            if len(c["t"]["bounds"]) >= 1:
+                break
+        return sched_case(c["t"], c["s"], c["checks"], idx, default)
+    if u < 0.7:
+        # element-wise op with b elements on an L-lane template (b > L, b % L != 0: no perfect factorisation)
+        lanes = rng.choice([2, 4, 4, 8])
+        nops = rng.choice([1, 2, 3])
+        b = rng.choice([lanes * rng.randint(1, 4), lanes * rng.randint(1, 3) + rng.randint(1, lanes - 1), rng.randint(1, lanes)])
+        extra = [rng.choice([1, 2, 3, 5])] if rng.random() < 0.4 else []
+        n = len(extra) + 1
+        row = [[0] * len(extra) + [1]] if not extra or rng.random() < 0.5 else [[b] + [1]]
+        t = {"bounds": [lanes], "ops": [_ident_ops([[1]]) for _ in range(nops)]}
+        s = {"bounds": extra + [b], "ops": [_ident_ops([list(row[0])]) for _ in range(nops)]}
+        assert all(len(r) == n for o in s["ops"] for r in o["A"])
+        return sched_case(t, s, gen_checks(rng, nops), idx, default)
+    if u < 0.85:
+        # sliding window x + s*y under the memory-granularity check: temporal strides finer than one bank
+        lanes = rng.choice([2, 4, 8])
+        size = rng.choice([1, 1, 2, 4, 8])
+        stride = rng.choice([1, 1, 2, 8, lanes])
+        t = {"bounds": [lanes], "ops": [_ident_ops([[1]])]}
+        s = {"bounds": [rng.choice([2, 3, 4]), lanes * rng.choice([1, 2])], "ops": [_ident_ops([[stride, 1]])]}
+        checks = [["pos"], ["mem", [size]]] if rng.random() < 0.7 else [["mem", [size]]]
+        return sched_case(t, s, checks, idx, False)
+    # GEMM-like template; one operand of the workload may be accessed along a diagonal / with a wrong column
+    tb = rng.choice([2, 2, 4])
+    t = {"bounds": [tb, tb, tb], "ops": [_ident_ops([[1, 0, 0], [0, 0, 1]]), _ident_ops([[0, 0, 1], [0, 1, 0]]),
+                                         _ident_ops([[1, 0, 0], [0, 1, 0]])]}
+    bs = [tb * rng.choice([1, 2]) for _ in range(3)]
+    ops = [[[1, 0, 0], [0, 0, 1]], [[0, 0, 1], [0, 1, 0]], [[1, 0, 0], [0, 1, 0]]]
+    v = rng.random()
+    if v < 0.45:
+        ops[rng.randrange(3)] = rng.choice([[[0, 0, 1], [0, 0, 1]], [[1, 0, 0], [1, 0, 0]], [[1, 1, 0], [0, 0, 1]]])
+    elif v < 0.6:
+        bs[rng.randrange(3)] = tb * 2 + 1
+    s = {"bounds": bs, "ops": [_ident_ops(o) for o in ops]}
+    if rng.random() < 0.5:
+        perm = [0, 1, 2]
+        rng.shuffle(perm)
+        s = {"bounds": [bs[p] for p in perm], "ops": [_ident_ops([[r[p] for p in perm] for r in o["A"]]) for o in s["ops"]]}
+    return sched_case(t, s, gen_checks(rng, 3), idx, default)
+
+
+# the three infeasible workloads of the seeded-change notes + a feasible control, always in the stream
+SCHEDULER_PROBES = [
+    sched_case({"bounds": [4], "ops": [_ident_ops([[1]])] * 3}, {"bounds": [16], "ops": [_ident_ops([[1]])] * 3}, [["pos"]]),
+    sched_case({"bounds": [4], "ops": [_ident_ops([[1]])] * 3}, {"bounds": [6], "ops": [_ident_ops([[1]])] * 3}, [["pos"]]),
+    sched_case({"bounds": [4], "ops": [_ident_ops([[1]])]}, {"bounds": [3, 8], "ops": [_ident_ops([[1, 1]])]},
+               [["pos"], ["mem", [1]]]),
+    sched_case({"bounds": [2, 2, 2], "ops": [_ident_ops([[1, 0, 0], [0, 0, 1]]), _ident_ops([[0, 0, 1], [0, 1, 0]]),
+                                             _ident_ops([[1, 0, 0], [0, 1, 0]])]},
+               {"bounds": [4, 4, 4], "ops": [_ident_ops([[1, 0, 0], [0, 0, 1]]), _ident_ops([[0, 0, 1], [0, 0, 1]]),
+                                             _ident_ops([[1, 0, 0], [0, 1, 0]])]}, [["pos"]], default_checks=True),
+]
+
+
 class C16(SchedProp):
     id = "C16"
     exhaustive_thorough = True
@@ -282,6 +355,9 @@ class C16(SchedProp):
             yield gen_check_case(rng)
         for _ in range(nb):
             yield gen_backtrack_case(rng, tier)
+        yield from SCHEDULER_PROBES
+        for _ in range(500 if tier == "quick" else 6000):
+            yield gen_scheduler_case(rng, tier)
         if tier == "thorough":
             import itertools
             vals = (-1, 0, 1, 2)
@@ -297,6 +373,7 @@ class C16(SchedProp):
             yield gen_match_case(rng)
             yield gen_check_case(rng)
             yield gen_backtrack_case(rng, "thorough")
+            yield gen_scheduler_case(rng, "thorough")
 
     def oracle(self, case, impl_out):
         out = []
@@ -317,23 +394,33 @@ class C16(SchedProp):
                 for v in requested_constraint_violations(tn, mk_sched(case["s"]), [case["check"]]):
                     out.append({"what": f"{'is_pure_output_stationary' if case['check'][0] == 'pos' else 'is_memory_flexible_enough'}"
                                         f" accepts a schedule although {v}", "finding": None})
-        elif kind == "backtrack":
+        elif kind in ("backtrack", "scheduler"):
+            # every schedule that is handed out -- yielded by the search or RETURNED by scheduler() -- must fit the
+            # template; scheduler() raising (no schedule) is fine, a returned non-fitting schedule is not
             t = mk_tmpl(case["t"])
             tj = case["t"]
             tn = len(tj["bounds"])
             checks = mk_checks(case["checks"])
-            for i, rj in enumerate(impl_out["results"]):
+            k0 = max(case["k"], 1) if kind == "backtrack" else 1
+            results = impl_out["results"] if kind == "backtrack" else [impl_out["result"]]
+            for i, rj in enumerate(results):
+                if kind == "scheduler":
+                    i = "returned by scheduler()"
                 if isinstance(rj["bounds"], dict):
                     out.append({"what": f"result #{i}: operands disagree on the iteration bounds", "finding": None})
                     continue
                 r = mk_sched(rj)
                 n = len(rj["bounds"])
-                if max(case["k"], 1) <= n:   # the search evaluated the requested checks on the whole schedule
+                if k0 <= n and len(rj["ops"]) != len(tj["ops"]):   # a 0-dim schedule is yielded without any matching
+                    out.append({"what": f"result #{i}: {len(rj['ops'])} operands for a template with {len(tj['ops'])}",
+                                "finding": None})
+                    break
+                if k0 <= n:   # the search evaluated the requested checks on the whole schedule
                     for v in requested_constraint_violations(tn, r, case["checks"]):
                         out.append({"what": f"result #{i} (bounds {rj['bounds']}): {v}", "finding": None})
                     if out:
                         break
-                for k in range(max(case["k"], 1), n + 1):
+                for k in range(k0, n + 1):
                     tc, rc = t.inner_dims(k), r.inner_dims(k)
                     ex = exact_matches(inner_json(tj, k), inner_json(rj, k))
                     if ex is False:
@@ -366,6 +453,8 @@ class C16(SchedProp):
             return bool(impl_out["matches"])
         if case["kind"] in ("check", "ocs"):
             return bool(impl_out["holds"])
+        if case["kind"] == "scheduler":
+            return impl_out["result"] != case["s"]
         return len(impl_out["results"]) > 0
 
 
